@@ -284,5 +284,29 @@ func mcastRetainedAddresses(w *bufio.Writer) {
 		})
 		p.Close()
 	}
+	// the IPv6 variant of the peer ("udp6", unicast): senders on ::1 are reported as ::1, with their port and no zone
+	if s6, err := net.ListenUDP("udp6", &net.UDPAddr{IP: net.IPv6loopback}); err == nil {
+		s6.Close()
+		old := senders
+		senders = nil
+		for i := 0; i < nSenders; i++ {
+			c, err := net.ListenUDP("udp6", &net.UDPAddr{IP: net.IPv6loopback})
+			if err != nil {
+				break
+			}
+			defer c.Close()
+			senders = append(senders, c)
+		}
+		if len(senders) == nSenders {
+			if p, err := multicast.NewUDPPeer(ioc, "udp6", "[::1]:0"); err == nil {
+				dst := &net.UDPAddr{IP: net.IPv6loopback, Port: int(p.LocalAddr().Port)}
+				run("UDPPeer(udp6).AsyncRead", dst, func(b []byte, done func(error, int, net.Addr, netip.AddrPort)) {
+					p.AsyncRead(b, func(err error, n int, from netip.AddrPort) { done(err, n, nil, from) })
+				})
+				p.Close()
+			}
+		}
+		senders = old
+	}
 	fmt.Fprintf(w, "DIRECT-STAT {\"mcast_retained_addresses\": %d, \"mcast_retained_address_failures\": %d}\n", trials, fails)
 }
